@@ -54,7 +54,6 @@ Notation erase := (RVModel.erase mva smv).
 Notation step := (RVModel.step mva mvc smv).
 Notation run := (RVModel.run mva mvc smv).
 
-Definition smv_id : Prop := forall v, smv v = v.
 
 (* what every operation guarantees: invariant, contents, capacities never shrink, and no storage is taken
    from the resource when the demand fits the capacity *)
@@ -115,7 +114,7 @@ Proof.
 Qed.
 
 (* ---- prepare_for_insert -------------------------------------------------------------------------------- *)
-Lemma pfi_spec s index count : wf s -> index <= size s -> (1 <= count \/ smv_id) ->
+Lemma pfi_spec s index count : wf s -> index <= size s ->
   let s' := fst (prepare_for_insert s index count) in
   snd (prepare_for_insert s index count) = Nat.min (index + count) (csize s) /\
   err s' = false /\ size s' = size s + count /\ cap s' = Nat.max (cap s) (size s + count) /\
@@ -127,27 +126,22 @@ Lemma pfi_spec s index count : wf s -> index <= size s -> (1 <= count \/ smv_id)
              (index <= p < index + count \/ size s + count <= p ->
                 if p <? csize s then isCon (cells s' p) else cells s' p = Raw)).
 Proof.
-  intros W Hi Hz. unfold RVModel.prepare_for_insert. bridge.
+  intros W Hi. unfold RVModel.prepare_for_insert. rewrite b_pfi_zero_cond.
+  destruct (Nat.eqb_spec count 0) as [Z|NZ].
+  { (* zero elements: early return, the vector is untouched *)
+    subst count. rewrite b_pfi_zero_ret. cbn [fst snd]. destruct W as [W1 W2 W3 W4 W5 W6].
+    rewrite !Nat.add_0_r. repeat apply conj; auto; try lia.
+    intros p; repeat apply conj; intros Hp; auto.
+    - rewrite Nat.sub_0_r. apply isCon_valof, W4; lia.
+    - destruct (Nat.ltb_spec p (csize s)); [apply W4 | apply W5]; lia. }
+  bridge.
   destruct (reserve_spec s (size s + count) W) as (W0 & S0 & C0 & K0 & P0 & A0).
   set (s0 := reserve s (size s + count)) in *.
   rewrite S0, C0. cbn [fst snd]. split; [reflexivity|].
   set (me := Nat.max (index + count) (csize s)).
   destruct W as [W1 W2 W3 W4 W5 W6]. destruct W0 as [V1 V2 V3 V4 V5 V6].
-  destruct (Nat.eq_dec count 0) as [Z|NZ].
-  - (* zero elements: only self-moves *)
-    subst count. destruct Hz as [Hz|Hz]; [lia|].
-    replace (size s + 0 - me) with 0 by (unfold me; lia). cbn [down_iter].
-    destruct (loop2_self mva smv Hz (me - (index + 0)) me s0) as (F & C & N & P).
-    { unfold me; lia. } { lia. } { intros p Hp. apply V4. unfold me in *; lia. }
-    set (s2 := down_iter _ _ _ s0) in *. destruct F as (F1 & F2 & F3 & F4 & F5).
-    cbn [err size cap nalloc csize nctor ndtor cells set_size].
-    repeat apply conj; try lia; try congruence.
-    intros p; repeat apply conj; intros Hp.
-    + rewrite P, P0; auto.
-    + rewrite P, P0, Nat.sub_0_r. apply isCon_valof, W4; lia.
-    + rewrite P, P0. destruct (Nat.ltb_spec p (csize s)); [apply W4 | apply W5]; lia.
-  - assert (Hc : 1 <= count) by lia.
-    destruct (loop1_spec mvc count Hc (size s + count - me) (size s + count) s0) as (F & C & N & P).
+  assert (Hc : 1 <= count) by lia.
+  destruct (loop1_spec mvc count Hc (size s + count - me) (size s + count) s0) as (F & C & N & P).
     { lia. } { unfold me; lia. } { unfold me; lia. }
     { intros p Hp. apply V5. unfold me in *; lia. }
     { intros p Hp. apply V4. unfold me in *; lia. }
@@ -205,15 +199,13 @@ Notation emplace := (RVModel.emplace mva mvc smv).
 Notation erase := (RVModel.erase mva smv).
 Notation step := (RVModel.step mva mvc smv).
 Notation run := (RVModel.run mva mvc smv).
-Notation smv_id := (RVOps.smv_id smv).
 
-Lemma insert_core s index vs : wf s -> index <= size s -> (vs <> [] \/ smv_id) ->
+Lemma insert_core s index vs : wf s -> index <= size s ->
   opost s (fill vs index (snd (prepare_for_insert s index (length vs))) (fst (prepare_for_insert s index (length vs))))
         (firstn index (abs s) ++ vs ++ skipn index (abs s)) (size s + length vs).
 Proof.
-  intros W Hi Hz.
+  intros W Hi.
   destruct (pfi_spec mva mvc smv s index (length vs) W Hi) as (R & E & S & K & A & C & N & P).
-  { destruct Hz; auto. left. destruct vs; simpl; [congruence | lia]. }
   set (s1 := fst _) in *. rewrite R.
   destruct (fill_spec vs index (Nat.min (index + length vs) (csize s)) s1) as (F & C2 & N2 & P2).
   { lia. }
@@ -252,11 +244,11 @@ Proof.
     rewrite Pb by lia. rewrite nth_abs by lia. simpl. f_equal. f_equal. lia.
 Qed.
 
-Lemma insert_range_post s index vs fe : wf s -> index <= size s -> (vs <> [] \/ smv_id) ->
+Lemma insert_range_post s index vs fe : wf s -> index <= size s ->
   (forall a b, nn (fe (zz a) (zz b)) = a + b) ->
   opost s (insert_range s index vs fe) (firstn index (abs s) ++ vs ++ skipn index (abs s)) (size s + length vs).
 Proof.
-  intros W Hi Hz Hfe. pose proof (insert_core s index vs W Hi Hz) as H.
+  intros W Hi Hfe. pose proof (insert_core s index vs W Hi) as H.
   unfold RVModel.insert_range. destruct (prepare_for_insert s index (length vs)) as [s1 re].
   cbn [fst snd] in H. rewrite Hfe. replace (index + length vs - index) with (length vs) by lia.
   rewrite firstn_all, Nat.eqb_refl. exact H.
@@ -268,6 +260,6 @@ Proof.
   intros W Hi. pose proof (insert_core s index [v] W Hi) as H. cbn [length] in H.
   unfold RVModel.emplace. destruct (prepare_for_insert s index 1) as [s1 re].
   cbn [fst snd length fill] in H. rewrite b_emplace_reuse.
-  replace (S (size s)) with (size s + 1) by lia. apply H. left; congruence.
+  replace (S (size s)) with (size s + 1) by lia. apply H.
 Qed.
 End Elem.
